@@ -314,6 +314,40 @@ func init() {
 				}
 				cfg.Requests = append(cfg.Requests, rk)
 			}
+			if rapid.IntRange(0, 2).Draw(t, "boundary") == 0 {
+				// focused: a node that admits swaps, and requests that satisfy every condition except
+				// possibly one that is drawn right at its boundary (premium limit around the premium
+				// of either direction, amount around the minimum / the channel balance / the wallet)
+				scn.SwapsAllowed[0], scn.BitcoinOn[0], scn.LiquidOn[0], scn.AcceptAll[0] = true, true, true, true
+				scn.Suspicious[0] = nil
+				scn.WalletSat[0] = pick(t, "bwallet", []uint64{50_000_000, 50_000_000, 1_010_000})
+				scn.Channels[0].BalA, scn.Channels[0].BalB = 5_000_000_000, pick(t, "bbalb", []uint64{5_000_000_000, 1_000_000_000})
+				scn.MinSwapMsat[0] = 100_000_000
+				rates := []int64{0, 2000, 0, 1000}
+				if len(scn.PremiumPPM[0]) == 4 {
+					rates = scn.PremiumPPM[0]
+				}
+				cfg.Requests = nil
+				at = 2000
+				for i := 0; i < n; i++ {
+					at += 25000 // the previous request's swap is over (cancelled by the scripted peer) by then
+					typ, chain := pick(t, "btype", []string{"in", "out", "out"}), pick(t, "bchain", []string{"btc", "lbtc"})
+					amount := pick(t, "bamount", []uint64{99_999, 100_000, 250_000, 999_999, 1_000_000, 1_000_001, 5_000_000})
+					ri, ro := rates[0], rates[1]
+					if chain == "lbtc" {
+						ri, ro = rates[2], rates[3]
+					}
+					pin, pout := int64(amount)*ri/1_000_000, int64(amount)*ro/1_000_000
+					own, other := pin, pout
+					if typ == "out" {
+						own, other = pout, pin
+					}
+					limit := pick(t, "blimit", []int64{own, own, own - 1, own + 1, other, other - 1, (own + other) / 2, 0, 1 << 40})
+					cfg.Requests = append(cfg.Requests, world.ReqKnob{AtMs: at, Type: typ, Chain: chain, Amount: amount, Version: 7, Limit: limit})
+				}
+				p.AdvCfg = cfg
+				return p
+			}
 			p.AdvCfg = cfg
 			np := rapid.IntRange(0, 2).Draw(t, "npol")
 			for i := 0; i < np; i++ {
@@ -528,6 +562,41 @@ func init() {
 					Kind: pick(t, "premkind", []string{"premium-set", "premium-set", "premium-setdefault", "premium-delete"}), Chain: pick(t, "premchain", []string{"btc", "lbtc"}),
 					Colon: rapid.Bool().Draw(t, "premout"), Peer: rapid.IntRange(0, 2).Draw(t, "prempeer"), N: pick(t, "premval", []int64{0, 1, 999, 1000, 2000, 10000, 1000000, -1, -1000, -1000000})})
 			}
+			if rapid.IntRange(0, 2).Draw(t, "pinned-rate") == 0 {
+				// focused: a peer-specific rate is set to a value (often the very value the default
+				// has at that moment), then the default moves; the peer stays pinned to its own rate
+				node := rapid.IntRange(0, 1).Draw(t, "pnode")
+				chain, out := pick(t, "pchain", []string{"btc", "lbtc"}), rapid.Bool().Draw(t, "pout")
+				idx := map[string]int{"btc": 0, "lbtc": 2}[chain]
+				if out {
+					idx++
+				}
+				inForce := []int64{0, 2000, 0, 1000}[idx]
+				if r := p.Scn.PremiumPPM[node]; len(r) == 4 {
+					inForce = r[idx]
+				}
+				vals := []int64{0, 1000, 2000, 5000, 10000, -1000}
+				at := 1000
+				op := func(kind string, n int64) {
+					at += pick(t, "pgap", []int{500, 4000, 30000})
+					p.Ops = append(p.Ops, world.Op{AtMs: at, Node: node, Kind: kind, Chain: chain, Colon: out, Peer: 1 - node, N: n})
+				}
+				if rapid.Bool().Draw(t, "pfirstdefault") {
+					inForce = pick(t, "pd1", vals)
+					op("premium-setdefault", inForce)
+				}
+				op("premium-set", pick(t, "pv", []int64{inForce, inForce, 5000, 0}))
+				op("premium-setdefault", pick(t, "pd2", vals))
+				if rapid.IntRange(0, 3).Draw(t, "pdelete") == 0 {
+					op("premium-delete", 0)
+				}
+				typ := "swapin"
+				if out {
+					typ = "swapout"
+				}
+				p.Ops = append(p.Ops, world.Op{AtMs: at + pick(t, "pswapat", []int{5000, 60000}), Node: 1 - node, Kind: typ, Chain: chain, Amount: pick(t, "pamount", []uint64{100_000, 1_000_000}), Limit: 1000000})
+				return p
+			}
 			// more swaps later so that changed rates are exercised
 			if rapid.Bool().Draw(t, "second") {
 				p.Ops = append(p.Ops, world.Op{AtMs: pick(t, "at2", []int{150000, 250000}), Node: rapid.IntRange(0, 1).Draw(t, "node2"), Kind: pick(t, "type2", []string{"swapout", "swapin"}), Chain: pick(t, "chain2", []string{"btc", "lbtc"}), Amount: pick(t, "amount2", []uint64{100_000, 333_333, 1_000_000}), Limit: 1000000})
@@ -588,19 +657,7 @@ func init() {
 	register(&PropDef{
 		ID: "C10",
 		Gen: func(t *rapid.T, tier string) *world.Plan {
-			p := genPlan(t, genOpts{sched: true, maxNet: 1, duration: []int{300}, silence: true, restartMs: []int{500, 3000}})
-			p.Ops = nil
-			n := rapid.IntRange(2, 5).Draw(t, "nops")
-			for i := 0; i < n; i++ {
-				p.Ops = append(p.Ops, world.Op{AtMs: pick(t, "at", []int{2000, 2000, 2001, 2050, 5000, 20000, 45000, 90000, 150000}), Node: rapid.IntRange(0, 1).Draw(t, "node"),
-					Kind: pick(t, "type", []string{"swapout", "swapin"}), Chain: pick(t, "chain", []string{"btc", "lbtc"}), Amount: pick(t, "amount", []uint64{100_000, 250_000}), Limit: 100000,
-					Colon: rapid.Bool().Draw(t, "colon")})
-			}
-			nc := rapid.IntRange(0, 2).Draw(t, "ncrash")
-			for i := 0; i < nc; i++ {
-				p.Ops = append(p.Ops, world.Op{AtMs: pick(t, "crashat", []int{2500, 4000, 10000, 30000, 60000}), Node: rapid.IntRange(0, 1).Draw(t, "cnode"), Kind: "crash", N: int64(pick(t, "crestart", []int{500, 3000}))})
-			}
-			return p
+			return genContention(t)
 		},
 		Monitors:   world.MonitorsFor("C10"),
 		Nontrivial: func(r *world.Result) bool { return probe(r, "C10:contention") || probe(r, "C10:two-active") },
@@ -714,4 +771,22 @@ func init() {
 		Monitors:   world.MonitorsFor("C18"),
 		Nontrivial: func(r *world.Result) bool { return probe(r, "inject:") },
 	})
+}
+
+// genContention: honest pairs whose operators start several swaps on the one channel at
+// nearly the same time, with restarts (C10; also used by C21 for the refusals this causes).
+func genContention(t *rapid.T) *world.Plan {
+	p := genPlan(t, genOpts{sched: true, maxNet: 1, duration: []int{300}, silence: true, restartMs: []int{500, 3000}})
+	p.Ops = nil
+	n := rapid.IntRange(2, 5).Draw(t, "nops")
+	for i := 0; i < n; i++ {
+		p.Ops = append(p.Ops, world.Op{AtMs: pick(t, "at", []int{2000, 2000, 2001, 2050, 5000, 20000, 45000, 90000, 150000}), Node: rapid.IntRange(0, 1).Draw(t, "node"),
+			Kind: pick(t, "type", []string{"swapout", "swapin"}), Chain: pick(t, "chain", []string{"btc", "lbtc"}), Amount: pick(t, "amount", []uint64{100_000, 250_000}), Limit: 100000,
+			Colon: rapid.Bool().Draw(t, "colon")})
+	}
+	nc := rapid.IntRange(0, 2).Draw(t, "ncrash")
+	for i := 0; i < nc; i++ {
+		p.Ops = append(p.Ops, world.Op{AtMs: pick(t, "crashat", []int{2500, 4000, 10000, 30000, 60000}), Node: rapid.IntRange(0, 1).Draw(t, "cnode"), Kind: "crash", N: int64(pick(t, "crestart", []int{500, 3000}))})
+	}
+	return p
 }
